@@ -77,7 +77,7 @@ func (e *Engine) planValue(x *Exec, t *Term, ty types.Type, depth int, nElems in
 		if ok {
 			row := Select(m, SArr(t))
 			for k := 0; k < nElems; k++ {
-				p.elems = append(p.elems, e.planValue(x, Select(row, Add(SOff(t), IntLit(int64(k)))), u.Elem(), depth+1, 8))
+				p.elems = append(p.elems, e.planValue(x, Select(row, ElemIdx(SOff(t), IntLit(int64(k)), es)), u.Elem(), depth+1, 8))
 			}
 		}
 		return p
@@ -363,9 +363,38 @@ func (e *Engine) tryReplay(vc *VC, o *Obligation, fres *FuncResult, repo string,
 		rf.PanicsWhen = append(rf.PanicsWhen, r.Text)
 	}
 	for _, rname := range con.Refines {
-		if ic := e.findIface(fn, rname); ic != nil {
-			// interface clauses use the interface's parameter names: not replayed generically
-			_ = ic
+		if ic := e.findIface(fn, rname); ic != nil && fn != nil {
+			// interface clauses use the interface's parameter names: alias them to the method's parameters
+			rf.Aliases = map[string]string{}
+			rf.ResAliases = map[string]int{}
+			all := append([]string{"this"}, ic.Params...)
+			for i, p := range fn.Params {
+				if i < len(all) {
+					rf.Aliases[all[i]] = p.Name()
+				}
+			}
+			for i, rn := range ic.Results {
+				rf.ResAliases[rn] = i
+			}
+			for _, r := range ic.Requires {
+				rf.Requires = append(rf.Requires, r.Text)
+			}
+			for _, r := range ic.Ensures {
+				rf.Ensures = append(rf.Ensures, r.Text)
+			}
+		}
+	}
+	for _, tn := range sortedKeys(e.Types) {
+		ts := e.Types[tn]
+		short := tn
+		if k := strings.LastIndex(short, "."); k >= 0 {
+			short = short[k+1:]
+		}
+		for _, v := range ts.Views {
+			rf.Views = append(rf.Views, govcrt.ViewJ{Type: short, Fn: v.Fn, Params: v.Params, Body: v.Body.Text})
+		}
+		for _, iv := range ts.Invariants {
+			rf.Invs = append(rf.Invs, govcrt.ViewJ{Type: short, Body: iv.Text})
 		}
 	}
 	for _, n := range sortedKeys(e.SpecFuncs) {
@@ -394,13 +423,31 @@ func (e *Engine) tryReplay(vc *VC, o *Obligation, fres *FuncResult, repo string,
 		return save()
 	}
 	rf.Target = tgt
+	approx := false
 	if o.Result != "sat" {
-		rf.Note = "the solver returned " + o.Result + ": no model to replay"
-		return save()
+		// no model: look for a candidate input with the quantified hypotheses dropped (the replay on the
+		// real code is the judge, so an over-approximate candidate is harmless)
+		approx = true
 	}
 	solver := strings.Split(o.Solver, "+")[0]
+	if approx {
+		solver = "z3-new"
+	}
 	nElems := maxElems
-	for attempt := 0; attempt < 2; attempt++ {
+	// size hints: prefer small models (dropped if they make the query unsatisfiable)
+	var hints []*Term
+	for _, in := range vc.Inputs {
+		switch in.Ty.Underlying().(type) {
+		case *types.Slice:
+			hints = append(hints, Le(SLen(in.T), IntLit(64)), Le(SOff(in.T), IntLit(16)), Le(SCap(in.T), IntLit(128)))
+		case *types.Interface:
+			if _, ok := e.ufuncs["RLen"]; ok {
+				hints = append(hints, Le(App("RLen", SInt, in.T), IntLit(200)))
+			}
+		}
+	}
+	useHints := len(hints) > 0
+	for attempt := 0; attempt < 3; attempt++ {
 		var plans []*valuePlan
 		var gv []*Term
 		for _, in := range vc.Inputs {
@@ -421,15 +468,45 @@ func (e *Engine) tryReplay(vc *VC, o *Obligation, fres *FuncResult, repo string,
 				q = append(q, t)
 			}
 		}
-		text := e.script(vc, o, nil, q)
+		vcq := vc
+		if approx {
+			c := *vc
+			c.Assumes = make([]*Term, len(vc.Assumes))
+			for i, a := range vc.Assumes {
+				c.Assumes[i] = stripQuantified(a)
+			}
+			vcq = &c
+		}
+		var extra []*Term
+		if useHints {
+			extra = hints
+		}
+		text := e.script(vcq, o, extra, q)
 		file := filepath.Join(cfg.TmpDir, "replay-"+safeName(o.Name+o.Case)+".smt2")
 		os.WriteFile(file, []byte(text), 0o644)
 		r, out, _ := runSolver(solver, file, cfg.TimeoutS*3)
+		if r != "sat" && useHints {
+			useHints = false
+			continue
+		}
 		if r != "sat" {
 			rf.Note = "model query returned " + r
+			if approx {
+				rf.Note = "the solver returned " + o.Result + " and the quantifier-free candidate query returned " + r + ": no input to replay"
+			}
 			return save()
 		}
-		mr := &modelReader{vals: parseGetValue(out), objs: map[string]*govcrt.JVal{}, arrs: map[string]bool{}}
+		if approx {
+			rf.Note = "candidate input from the quantifier-free approximation of the obligation (solver result on the full obligation: " + o.Result + ")"
+		}
+		ordered := parseGetValueOrdered(out)
+		vals := map[string]string{}
+		for i, t := range q {
+			if i < len(ordered) {
+				vals[t.String()] = ordered[i]
+			}
+		}
+		mr := &modelReader{vals: vals, objs: map[string]*govcrt.JVal{}, arrs: map[string]bool{}}
 		rf.Params = nil
 		need := 0
 		fail := ""
@@ -462,6 +539,48 @@ func (e *Engine) tryReplay(vc *VC, o *Obligation, fres *FuncResult, repo string,
 	res.Outcome, res.Log = outcome, log
 	res.Reproduced = strings.HasPrefix(outcome, "reproduced")
 	return save()
+}
+
+func hasQuant(t *Term, seen map[*Term]bool) bool {
+	if v, ok := seen[t]; ok {
+		return v
+	}
+	r := t.Op == "forall" || t.Op == "exists"
+	if !r {
+		for _, a := range t.Args {
+			if hasQuant(a, seen) {
+				r = true
+				break
+			}
+		}
+	}
+	seen[t] = r
+	return r
+}
+
+// stripQuantified weakens a hypothesis by dropping its quantified conjuncts.
+func stripQuantified(t *Term) *Term {
+	seen := map[*Term]bool{}
+	var strip func(t *Term) *Term
+	strip = func(t *Term) *Term {
+		if !hasQuant(t, seen) {
+			return t
+		}
+		switch t.Op {
+		case "and":
+			var as []*Term
+			for _, a := range t.Args {
+				as = append(as, strip(a))
+			}
+			return And(as...)
+		case "=>":
+			if !hasQuant(t.Args[0], seen) {
+				return Implies(t.Args[0], strip(t.Args[1]))
+			}
+		}
+		return True
+	}
+	return strip(t)
 }
 
 func truncate(s string, n int) string {
